@@ -139,6 +139,149 @@ Proof.
     intro H; inversion H; lia.
 Qed.
 
+(* ---- helpers: nat division for lia ---- *)
+Lemma nat_div_N a b : (a / b)%nat = N.to_nat (N.of_nat a / N.of_nat b).
+Proof. rewrite N2Nat.inj_div, !Nat2N.id. reflexivity. Qed.
+Lemma nat_mod_N a b : (a mod b)%nat = N.to_nat (N.of_nat a mod N.of_nat b).
+Proof. rewrite N2Nat.inj_mod, !Nat2N.id. reflexivity. Qed.
+Ltac nlia := rewrite ?nat_div_N, ?nat_mod_N in *; lia.
+
+(* ---- helpers: lists ---- *)
+Lemma skipn_skipn' {A} a b (l : list A) : skipn a (skipn b l) = skipn (b + a) l.
+Proof.
+  revert l. induction b as [|b IH]; intro l; [reflexivity|].
+  destruct l as [|x l]; cbn [skipn Nat.add].
+  - destruct a; reflexivity.
+  - apply IH.
+Qed.
+Lemma nth_firstn' {A} j k (l : list A) d : (j < k)%nat -> nth j (firstn k l) d = nth j l d.
+Proof.
+  revert j l. induction k as [|k IH]; intros j l H; [lia|].
+  destruct l as [|x l]; [destruct j; reflexivity|].
+  destruct j as [|j]; cbn [firstn nth]; [reflexivity|]. apply IH. lia.
+Qed.
+Lemma nth_skipn' {A} k j (l : list A) d : nth j (skipn k l) d = nth (k + j) l d.
+Proof.
+  revert l. induction k as [|k IH]; intro l; [reflexivity|].
+  destruct l as [|x l]; cbn [skipn Nat.add nth].
+  - destruct j; reflexivity.
+  - apply IH.
+Qed.
+Lemma skipn_cons_nth {A} i (l : list A) x r :
+  skipn i l = x :: r -> nth_error l i = Some x /\ skipn (S i) l = r.
+Proof.
+  revert l. induction i as [|i IH]; intros l H.
+  - cbn [skipn] in H. subst l. split; reflexivity.
+  - destruct l as [|y l]; [cbn [skipn] in H; discriminate|].
+    cbn [skipn] in H. cbn [nth_error]. change (skipn (S (S i)) (y :: l)) with (skipn (S i) l).
+    apply IH; exact H.
+Qed.
+Lemma skipn_nth_cons {A} i (l : list A) :
+  (i < length l)%nat -> exists x, skipn i l = x :: skipn (S i) l.
+Proof.
+  revert l; induction i as [|i IH]; intros l H; destruct l as [|y l]; cbn [length] in H; try lia.
+  - exists y. reflexivity.
+  - destruct (IH l) as [x Hx]; [lia|]. exists x. exact Hx.
+Qed.
+
+(* ---- helpers: the NULL bitmap ---- *)
+Lemma null_bitmap_f_length fuel l :
+  (length l <= fuel)%nat -> length (null_bitmap_f fuel l) = ((length l + 7) / 8)%nat.
+Proof.
+  revert l. induction fuel as [|f IH]; intros l H.
+  - destruct l; [reflexivity | cbn [length] in H; lia].
+  - destruct l as [|b l]; [reflexivity|].
+    cbn [null_bitmap_f]. cbn [length] in H.
+    assert (HL : length (skipn 8 (b :: l)) = (S (length l) - 8)%nat) by (rewrite skipn_length; reflexivity).
+    change (length (b_of_N (bits_to_N (firstn 8 (b :: l))) :: null_bitmap_f f (skipn 8 (b :: l))))
+      with (S (length (null_bitmap_f f (skipn 8 (b :: l))))).
+    rewrite IH by lia. rewrite HL. cbn [length]. nlia.
+Qed.
+Lemma null_bitmap_f_nth fuel l k :
+  (8 * k < length l)%nat -> (length l <= fuel)%nat ->
+  nth_error (null_bitmap_f fuel l) k = Some (b_of_N (bits_to_N (firstn 8 (skipn (8 * k) l)))).
+Proof.
+  revert l k. induction fuel as [|f IH]; intros l k Hk Hf; [lia|].
+  destruct l as [|b l]; [cbn [length] in Hk; lia|].
+  cbn [null_bitmap_f]. destruct k as [|k].
+  - reflexivity.
+  - cbn [nth_error].
+    assert (HL : length (skipn 8 (b :: l)) = (length (b :: l) - 8)%nat) by apply skipn_length.
+    rewrite IH by lia.
+    rewrite skipn_skipn'. replace (8 + 8 * k)%nat with (8 * S k)%nat by lia. reflexivity.
+Qed.
+Lemma bits_to_N_testbit l j : N.testbit (bits_to_N l) (N.of_nat j) = nth j l false.
+Proof.
+  revert j. induction l as [|b r IH]; intro j.
+  - cbn [bits_to_N]. rewrite N.bits_0. destruct j; reflexivity.
+  - cbn [bits_to_N]. change (if b then 1 else 0) with (N.b2n b). rewrite N.add_comm.
+    destruct j as [|j].
+    + cbn [nth]. change (N.of_nat 0) with 0. apply N.testbit_0_r.
+    + rewrite Nat2N.inj_succ, N.testbit_succ_r. cbn [nth]. apply IH.
+Qed.
+Lemma bits_to_N_lt l : bits_to_N l < 2 ^ N.of_nat (length l).
+Proof.
+  induction l as [|b r IH].
+  - cbn [bits_to_N length]. change (2 ^ N.of_nat 0) with 1. lia.
+  - cbn [bits_to_N length]. rewrite Nat2N.inj_succ, N.pow_succ_r by lia. destruct b; lia.
+Qed.
+Lemma null_bit nulls i : (i < length nulls)%nat ->
+  exists b, nth_error (null_bitmap nulls) (i / 8) = Some b /\
+            N.testbit (N_of_b b) (N.of_nat (i mod 8)) = nth i nulls false.
+Proof.
+  intro Hi. unfold null_bitmap. eexists. split.
+  - apply null_bitmap_f_nth; nlia.
+  - set (chunk := firstn 8 (skipn (8 * (i / 8)) nulls)).
+    assert (Hlen : (length chunk <= 8)%nat) by apply firstn_le_length.
+    rewrite Nb.
+    + rewrite bits_to_N_testbit. unfold chunk. rewrite nth_firstn' by nlia.
+      rewrite nth_skipn'. f_equal. nlia.
+    + pose proof (bits_to_N_lt chunk) as Hlt.
+      assert (Hp : 2 ^ N.of_nat (length chunk) <= 2 ^ 8) by (apply N.pow_le_mono_r; lia).
+      change (2 ^ 8) with 256 in Hp. lia.
+Qed.
+
+(* ---- helpers: the block ---- *)
+Definition nulls_of (ps : list cparam) : list bool :=
+  map (fun p => match cp_value p with None => true | Some _ => false end) ps.
+Definition vbytes (p : cparam) : bytes := match cp_value p with Some v => v | None => [] end.
+Definition stI (n : N) (bm : bytes) (long : list (N * bytes)) (types : list (N * bool))
+  (i : nat) (inp : bytes) : pstate :=
+  {| p_params := n; p_input := inp; p_nullmap := Some bm; p_col := N.of_nat i;
+     p_long := long; p_bound := types |}.
+Lemma type_table_cons p r :
+  type_table (p :: r) = b_of_N (cp_type p) :: (if cp_unsigned p then x80 else x00) :: type_table r.
+Proof. reflexivity. Qed.
+Lemma values_of_cons p r : values_of (p :: r) = vbytes p ++ values_of r.
+Proof. reflexivity. Qed.
+Lemma type_table_length ps : length (type_table ps) = (2 * length ps)%nat.
+Proof.
+  induction ps as [|p r IH]; [reflexivity|]. rewrite type_table_cons. cbn [length]. rewrite IH. lia.
+Qed.
+Lemma exec_block_true ps : ps <> [] ->
+  exec_block ps true = null_bitmap (nulls_of ps) ++ (x01 :: type_table ps) ++ values_of ps.
+Proof. destruct ps; [congruence | reflexivity]. Qed.
+Lemma exec_block_false ps : ps <> [] ->
+  exec_block ps false = null_bitmap (nulls_of ps) ++ [x00] ++ values_of ps.
+Proof. destruct ps; [congruence | reflexivity]. Qed.
+Lemma bitmap_len ps : length (null_bitmap (nulls_of ps)) = N.to_nat ((Nlen ps + 7) / 8).
+Proof.
+  unfold null_bitmap. rewrite null_bitmap_f_length by lia.
+  unfold nulls_of, Nlen. rewrite map_length. nlia.
+Qed.
+Lemma params_header_some p bm : p_nullmap p = Some bm -> params_header p = ROk p.
+Proof. intro H. unfold params_header. rewrite H. reflexivity. Qed.
+Lemma header_reuse ps long bound0 : ps <> [] ->
+  params_header {| p_params := Nlen ps; p_input := exec_block ps false; p_nullmap := None; p_col := 0;
+                   p_long := long; p_bound := bound0 |} =
+  ROk (stI (Nlen ps) (null_bitmap (nulls_of ps)) long bound0 0 (values_of ps)).
+Proof.
+  intros Hne. rewrite exec_block_false by exact Hne.
+  unfold params_header. cbn [p_nullmap p_params p_input p_col p_long p_bound].
+  rewrite take_n_app by apply bitmap_len. cbn [app].
+  change (byte_eqb x00 x00) with true. reflexivity.
+Qed.
+
 Section WithOracles.
 Variable fpext : N -> N.
 Variable fptrunc : N -> N.
@@ -445,6 +588,141 @@ Definition param_calls (types : list (N * bool)) (inners : list pinner) : list c
 Definition pstate0 (n : N) (input : bytes) (long : list (N * bytes)) (bound : list (N * bool)) : pstate :=
   {| p_params := n; p_input := input; p_nullmap := None; p_col := 0; p_long := long; p_bound := bound |}.
 
+(* ---- helpers: the iteration ---- *)
+Lemma parse_types_table ps :
+  types_ok ps -> parse_types (length ps) (type_table ps) = ROk (types_of ps).
+Proof.
+  unfold types_ok. induction 1 as [|p r [Hk Hlt] _ IH]; [reflexivity|].
+  rewrite type_table_cons. cbn [length parse_types]. rewrite Nb by exact Hlt. rewrite Hk, IH.
+  cbn [rbind].
+  assert (E : negb (N.land (N_of_b (if cp_unsigned p then x80 else x00)) 128 =? 0) = cp_unsigned p)
+    by (destruct (cp_unsigned p); reflexivity).
+  rewrite E. reflexivity.
+Qed.
+Lemma header_bound ps long bound0 : ps <> [] -> types_ok ps ->
+  params_header (pstate0 (Nlen ps) (exec_block ps true) long bound0) =
+  ROk (stI (Nlen ps) (null_bitmap (nulls_of ps)) long (types_of ps) 0 (values_of ps)).
+Proof.
+  intros Hne Hok. rewrite exec_block_true by exact Hne.
+  unfold params_header, pstate0. cbn [p_nullmap p_params p_input p_col p_long p_bound].
+  rewrite take_n_app by apply bitmap_len. cbn [app].
+  change (byte_eqb x01 x00) with false. cbv beta iota.
+  rewrite Nlen_to_nat.
+  rewrite take_n_app by apply type_table_length.
+  rewrite parse_types_table by exact Hok. reflexivity.
+Qed.
+
+Lemma params_next_stI n bm long types i inp :
+  params_next fpext (stI n bm long types i inp) =
+  if n <=? N.of_nat i then ROk (None, stI n bm long types i inp) else
+  match nth_error types i with
+  | None => RPanic PParamsBoundIndex
+  | Some (ct, uns) =>
+    match nth_error bm (i / 8)%nat with
+    | None => ROk (None, stI n bm long types i inp)
+    | Some b =>
+      if N.testbit (N_of_b b) (N.of_nat (i mod 8)%nat)
+      then ROk (Some (ct, PINull), stI n bm long types (S i) inp)
+      else match lookup (N.of_nat i) long with
+           | Some data => ROk (Some (ct, PIBytes data), stI n bm long types (S i) inp)
+           | None => match parse_value fpext inp ct uns with
+                     | ROk (v, rest) => ROk (Some (ct, v), stI n bm long types (S i) rest)
+                     | RErr _ => RPanic PParamsValue
+                     | RPanic s => RPanic s end
+           end
+    end
+  end.
+Proof.
+  unfold params_next, stI.
+  cbn [params_header p_nullmap rbind p_params p_col p_bound p_input p_long].
+  rewrite Nat2N.id.
+  replace (N.to_nat (N.of_nat i / 8)) with (i / 8)%nat by nlia.
+  replace (N.of_nat i mod 8) with (N.of_nat (i mod 8)%nat) by nlia.
+  replace (N.of_nat i + 1) with (N.of_nat (S i)) by lia.
+  reflexivity.
+Qed.
+
+Lemma step ps long types i p t u inner rest :
+  nth_error ps i = Some p -> nth_error types i = Some (t, u) ->
+  delivered long types i p = Some inner ->
+  params_next fpext (stI (Nlen ps) (null_bitmap (nulls_of ps)) long types i (vbytes p ++ rest)) =
+  ROk (Some (t, inner), stI (Nlen ps) (null_bitmap (nulls_of ps)) long types (S i) rest).
+Proof.
+  intros Hp Ht Hd. rewrite params_next_stI.
+  assert (Hi : (i < length ps)%nat) by (apply nth_error_Some; congruence).
+  destruct (N.leb_spec (Nlen ps) (N.of_nat i)) as [Hle|_]; [unfold Nlen in Hle; lia|].
+  rewrite Ht.
+  destruct (null_bit (nulls_of ps) i) as [b [Hb Hbit]];
+    [unfold nulls_of; rewrite map_length; exact Hi|].
+  rewrite Hb, Hbit.
+  assert (Hn : nth i (nulls_of ps) false = match cp_value p with None => true | Some _ => false end).
+  { unfold nulls_of. apply nth_error_nth.
+    exact (map_nth_error (fun p => match cp_value p with None => true | Some _ => false end) _ _ Hp). }
+  rewrite Hn. unfold delivered in Hd. unfold vbytes.
+  destruct (cp_value p) as [v|].
+  - destruct (lookup (N.of_nat i) long) as [data|].
+    + destruct v; [|discriminate]. inversion Hd; subst. reflexivity.
+    + rewrite Ht in Hd.
+      destruct (parse_value fpext v t u) as [[inner' r']| |] eqn:E; try discriminate.
+      destruct r'; [|discriminate]. inversion Hd; subst.
+      rewrite (parse_value_app _ _ _ _ rest E). reflexivity.
+  - inversion Hd; subst. reflexivity.
+Qed.
+
+Lemma abs_pull_step f p ct v p' :
+  params_next fpext p = ROk (Some (ct, v), p') ->
+  abs_pull fpext fptrunc (S f) None [] p =
+  match abs_pull fpext fptrunc f None [] p' with
+  | Some (cs, p'') => Some (CParam ct v :: cs, p'')
+  | None => None end.
+Proof. intro H. cbn [abs_pull]. rewrite H. reflexivity. Qed.
+Lemma abs_pull_end f p p' :
+  params_next fpext p = ROk (None, p') -> abs_pull fpext fptrunc (S f) None [] p = Some ([], p').
+Proof. intro H. cbn [abs_pull]. rewrite H. reflexivity. Qed.
+Lemma abs_pull_ext f c p0 p1 :
+  params_next fpext p0 = params_next fpext p1 ->
+  abs_pull fpext fptrunc (S f) None c p0 = abs_pull fpext fptrunc (S f) None c p1.
+Proof. intro H. cbn [abs_pull]. rewrite H. reflexivity. Qed.
+Lemma params_next_header p0 p1 bm :
+  params_header p0 = ROk p1 -> p_nullmap p1 = Some bm ->
+  params_next fpext p0 = params_next fpext p1.
+Proof.
+  intros H Hn. unfold params_next. rewrite H, (params_header_some _ _ Hn). reflexivity.
+Qed.
+
+Lemma pull_loop ps long types : length types = length ps ->
+  forall rs i inners fuel,
+  (i <= length ps)%nat -> skipn i ps = rs ->
+  delivered_all long types i rs = Some inners -> (length rs < fuel)%nat ->
+  abs_pull fpext fptrunc fuel None []
+    (stI (Nlen ps) (null_bitmap (nulls_of ps)) long types i (values_of rs)) =
+  Some (param_calls (skipn i types) inners,
+        stI (Nlen ps) (null_bitmap (nulls_of ps)) long types (length ps) []).
+Proof.
+  intros Hlen rs. induction rs as [|p r IH]; intros i inners fuel Hi Hs Hd Hf.
+  - destruct fuel as [|f]; [lia|].
+    cbn [delivered_all] in Hd. inversion Hd; subst inners.
+    assert (Ei : i = length ps).
+    { pose proof (skipn_length i ps) as HL. rewrite Hs in HL. cbn [length] in HL. lia. }
+    subst i.
+    rewrite (abs_pull_end f _ (stI (Nlen ps) (null_bitmap (nulls_of ps)) long types (length ps) [])).
+    + rewrite <- Hlen, skipn_all. reflexivity.
+    + rewrite params_next_stI. unfold Nlen. rewrite N.leb_refl. reflexivity.
+  - destruct fuel as [|f]; [lia|]. cbn [length] in Hf.
+    destruct (skipn_cons_nth _ _ _ _ Hs) as [Hp Hs'].
+    assert (Hi' : (i < length ps)%nat) by (apply nth_error_Some; congruence).
+    destruct (skipn_nth_cons i types) as [[t u] Hx]; [lia|].
+    destruct (skipn_cons_nth _ _ _ _ Hx) as [Ht _].
+    cbn [delivered_all] in Hd.
+    destruct (delivered long types i p) as [inner|] eqn:Hd1; [|discriminate].
+    destruct (delivered_all long types (S i) r) as [ins|] eqn:Hd2; [|discriminate].
+    inversion Hd; subst inners.
+    rewrite values_of_cons.
+    rewrite (abs_pull_step f _ _ _ _ (step ps long types i p t u inner (values_of r) Hp Ht Hd1)).
+    rewrite (IH (S i) ins f) by (first [exact Hs' | exact Hd2 | lia]).
+    rewrite Hx. reflexivity.
+Qed.
+
 (* new-params-bound = 1: the types sent with this execution are used and recorded *)
 Theorem pull_bound ps long bound0 inners :
   Nlen ps < 65536 -> types_ok ps ->
@@ -453,7 +731,20 @@ Theorem pull_bound ps long bound0 inners :
     abs_pull fpext fptrunc (S (length ps)) None [] (pstate0 (Nlen ps) (exec_block ps true) long bound0)
       = Some (param_calls (types_of ps) inners, final) /\
     (ps <> [] -> p_bound final = types_of ps) /\ p_input final = [].
-Admitted.
+Proof.
+  intros _ Hok Hd. destruct ps as [|p0 ps0].
+  - cbn [delivered_all] in Hd. inversion Hd; subst inners.
+    eexists. split; [reflexivity|]. split; [congruence | reflexivity].
+  - set (ps := p0 :: ps0) in *.
+    assert (Hne : ps <> []) by discriminate. clearbody ps.
+    exists (stI (Nlen ps) (null_bitmap (nulls_of ps)) long (types_of ps) (length ps) []).
+    split; [|split; [intros _; reflexivity | reflexivity]].
+    rewrite (abs_pull_ext _ _ _ _
+               (params_next_header _ _ _ (header_bound ps long bound0 Hne Hok) eq_refl)).
+    assert (Hlen : length (types_of ps) = length ps) by (unfold types_of; apply map_length).
+    apply (pull_loop ps long (types_of ps) Hlen ps 0%nat inners (S (length ps)));
+      [lia | reflexivity | exact Hd | lia].
+Qed.
 
 (* new-params-bound = 0: the types bound earlier for this statement are used, and kept *)
 Theorem pull_reuse ps long bound0 inners :
@@ -463,6 +754,27 @@ Theorem pull_reuse ps long bound0 inners :
     abs_pull fpext fptrunc (S (length ps)) None [] (pstate0 (Nlen ps) (exec_block ps false) long bound0)
       = Some (param_calls bound0 inners, final) /\
     p_bound final = bound0 /\ p_input final = [].
-Admitted.
+Proof.
+  intros _ Hlen Hd. destruct ps as [|p0 ps0].
+  - cbn [delivered_all] in Hd. inversion Hd; subst inners.
+    destruct bound0; [|discriminate Hlen].
+    eexists. split; [reflexivity|]. split; reflexivity.
+  - set (ps := p0 :: ps0) in *.
+    assert (Hne : ps <> []) by discriminate. clearbody ps.
+    exists (stI (Nlen ps) (null_bitmap (nulls_of ps)) long bound0 (length ps) []).
+    split; [|split; reflexivity].
+    unfold pstate0.
+    rewrite (abs_pull_ext _ _ _ _
+               (params_next_header _ _ _ (header_reuse ps long bound0 Hne) eq_refl)).
+    apply (pull_loop ps long bound0 Hlen ps 0%nat inners (S (length ps)));
+      [lia | reflexivity | exact Hd | lia].
+Qed.
 
 End WithOracles.
+
+Print Assumptions pull_bound.
+Print Assumptions pull_reuse.
+Print Assumptions parse_value_app.
+Print Assumptions parse_int.
+Print Assumptions convert_datetime11_exact.
+Print Assumptions convert_time12_exact.
